@@ -297,30 +297,50 @@ def rf10b(run):
     preds = EF.Predicates(gen)
     tv = dict(gen.enum('MIR_type_t'))
     blk = tv['MIR_T_BLK']
-    want = {'mov_type': {1: 'MIR_T_I64', 2: 'MIR_T_D'}, 'mov_type1': {3: 'MIR_T_I64', 4: 'MIR_T_D'}, 'mov_type2': {3: 'MIR_T_D', 4: 'MIR_T_I64'}}
+    first = {1: 'MIR_T_I64', 2: 'MIR_T_D', 3: 'MIR_T_I64', 4: 'MIR_T_D'}
+    second = {1: 'MIR_T_I64', 2: 'MIR_T_D', 3: 'MIR_T_D', 4: 'MIR_T_I64'}
     tname = {v: n for n, v in tv.items()}
     nsites = 0
     for fn in ('machinize_call', 'target_machinize'):
         f = gen.func(fn)
         run.functions_analysed.add(('gen', fn))
-        seen = set()
+        covered = {}
         for n in f.walk():
             if n['k'] != 'DeclStmt':
                 continue
             for d in n['decls']:
-                if d['n'] in want and d.get('init') is not None:
-                    seen.add(d['n'])
-                    for k, exp in want[d['n']].items():
-                        v = preds.eval(d['init'], {'type': blk + k}, frozenset())
-                        got = tname.get(v)
+                if not (d['n'].startswith('mov_type') and d.get('init') is not None and gen.types[d['t']].enum == 'MIR_type_t'):
+                    continue
+                roles = {'mov_type': ('first', 'second'), 'mov_type1': ('first',), 'mov_type2': ('second',)}.get(d['n'])
+                if roles is None:
+                    continue
+                for k in (1, 2, 3, 4):
+                    # is class k admitted by the enclosing conditions?
+                    admitted = True
+                    child = n
+                    for a_ in f.ancestors(n):
+                        if a_['k'] == 'IfStmt' and a_['c'][1] is not None and any(x is n for x in F.walk(a_['c'][1])):
+                            c = preds.eval(a_['c'][0], {'type': blk + k}, frozenset())
+                            if c is not None and not c:
+                                admitted = False
+                    if not admitted:
+                        continue
+                    v = preds.eval(d['init'], {'type': blk + k}, frozenset())
+                    got = tname.get(v)
+                    for role in roles:
+                        exp = (first if role == 'first' else second)[k]
+                        if d['n'] == 'mov_type' and k in (3, 4):
+                            continue
                         ok = got == exp
                         nsites += 1
-                        run.ob(rule, (fn, d['n'], k), ok, {'function': fn, 'class': 'MIR_T_BLK+%d' % k, d['n']: got, 'expected': exp})
+                        covered.setdefault(k, set()).add(role)
+                        run.ob(rule, (fn, d['n'], k, role), ok, {'function': fn, 'class': 'MIR_T_BLK+%d' % k, 'eightbyte': role, d['n']: got, 'expected': exp})
                         if not ok:
                             run.violation(rule, f, '%s for MIR_T_BLK+%d' % (d['n'], k), '%s moves the %s eightbyte of a BLK+%d argument as %s; '
-                                          'the class means %s' % (fn, 'first' if d['n'] != 'mov_type2' else 'second', k, got, exp), line=n['l'])
-        if seen != set(want):
-            run.analysis_broken(rule, '%s: eightbyte class variables found: %s' % (fn, sorted(seen)))
+                                          'the class means %s' % (fn, role, k, got, exp), line=n['l'])
+        missing = [k for k in (1, 2, 3, 4) if 'first' not in covered.get(k, ())]
+        if missing:
+            run.analysis_broken(rule, '%s: no eightbyte class found for block classes %s' % (fn, missing))
     # producer: first eightbyte floating => BLK+4
     c2 = run.tu('c2mir')
     fs = [g for g in c2.func_list if any(x['k'] == 'ReturnStmt' and 'MIR_T_BLK + 4' in F.src(x) for x in g.walk())]
@@ -335,3 +355,50 @@ def rf10b(run):
                 run.violation(rule, g, 'BLK+4 classification', '%s returns BLK+4 under [%s]; BLK+4 must mean that the first eightbyte is '
                               'floating-point' % (g.name, c), line=r['l'])
     return nsites
+
+
+
+def rf10d(run):
+    """argument-register counters are consumed only by arguments that are actually passed in registers"""
+    from lib import linstate as LS
+    rule = 'RF10d'
+    run.rule(rule, 'machinize_call: on every path on which a block argument falls through to the stack-passing code, the integer and SSE '
+                   'argument-register counters are what they were before the block was looked at (the psABI gives the remaining registers '
+                   'to later arguments)')
+    gen = run.tu('gen')
+    f = gen.func('machinize_call')
+    run.functions_analysed.add(('gen', f.name))
+    found = 0
+    for comp in [x for x in f.walk() if x['k'] == 'CompoundStmt']:
+        ks = F.kids(comp)
+        start = end = None
+        for i, s_ in enumerate(ks):
+            if s_['k'] == 'IfStmt' and 'MIR_T_BLK + 1' in F.src(s_['c'][0]).replace('(MIR_T_BLK + 1)', 'MIR_T_BLK + 1') and start is None:
+                start = i
+            if s_['k'] == 'IfStmt' and F.src(F.strip(s_['c'][0])) == 'MIR_blk_type_p(type)' and start is not None and i > start:
+                end = i
+                break
+        if start is None or end is None:
+            continue
+        found += 1
+        sym = LS.Sym()
+        i0, x0 = LS.Lin({'I': 1}), LS.Lin({'X': 1})
+        paths = sym.run(ks[start:end], {'int_arg_num': i0, 'fp_arg_num': x0})
+        n_fall = 0
+        for σ in paths:
+            if '__done__' in σ:
+                continue
+            n_fall += 1
+            ok = σ['int_arg_num'].key() == i0.key() and σ['fp_arg_num'].key() == x0.key()
+            run.ob(rule, ('fallthrough', n_fall), ok, {'path': 'block argument not passed in registers', 'int_arg_num': repr(σ['int_arg_num']),
+                                                      'fp_arg_num': repr(σ['fp_arg_num'])})
+            if not ok:
+                run.violation(rule, f, 'register counters on the stack-passing path',
+                              'a path reaches the stack-passing code for a block argument with int_arg_num = [%s], fp_arg_num = [%s] '
+                              '(initially [I], [X]): registers consumed by a block that is then passed on the stack are lost for the '
+                              'following arguments' % (σ['int_arg_num'], σ['fp_arg_num']), line=ks[start]['l'])
+                break
+        if n_fall == 0:
+            run.analysis_broken(rule, 'machinize_call: no fall-through path from the register-passing attempt found')
+    if found != 1:
+        run.analysis_broken(rule, 'machinize_call: block register-passing region found %d times' % found)
